@@ -469,7 +469,8 @@ impl BinaryClassification<&[bool]> for &[Pr] {
         let mut s0 = 0.0;
 
         for (s, t) in tuples {
-            if (*s - s0).abs() > 1e-10 {
+            // the first (smallest) score always opens the curve at (0, 0), also when it is 0 itself
+            if tps_fps.is_empty() || (*s - s0).abs() > 1e-10 {
                 tps_fps.push((tp, fp));
                 thresholds.push(s);
                 s0 = *s;
